@@ -779,3 +779,10 @@ struct Out { i: In, f: f32, arr: array<In, 2>, g: f32 }
 @group(0) @binding(0) var<storage, read_write> s: Out;
 @compute @workgroup_size(1) fn main() { s.g = s.i.b + s.f + s.arr[1].b; }
 """)
+
+
+# statement forms with inlined operator operands (lib/opforms.py): atomic statements whose index and value operands are
+# operator expressions used once (a `%` pasted into a format string, missing parentheses, an operand evaluated twice ...)
+import opforms as _opforms
+for _n, _s in _opforms.programs():
+    P.append((_n, _s, ("small", "boundary")))
